@@ -177,7 +177,8 @@ func padBuffer(buffer []byte, blockSize int) []byte {
 
 // Remove padding
 func unpadBuffer(buffer []byte, blockSize int) ([]byte, error) {
-	if len(buffer)%blockSize != 0 {
+	// An authenticated ciphertext may be empty: it has no padding at all.
+	if len(buffer) == 0 || len(buffer)%blockSize != 0 {
 		return nil, errors.New("square/go-jose: invalid padding")
 	}
 
